@@ -505,7 +505,7 @@ func rulesC04(w *World, r *Report) {
 		}
 	}
 	r.floor("C04.R4 Append sites in container readers", nA, 2)
-	w.ruleHolderChange(r, "C04.R4 grown slices are re-announced to their holder")
+	w.ruleHolderChangePX(r, "C04.R4 grown slices are re-announced to their holder")
 	w.ruleRefBinding(r, "C04.R5 references keep identity")
 }
 
